@@ -618,7 +618,8 @@ def run_pidmisc(case, cx, bp):
     for dt in DTS:
         t = DT(dt)
         inputs = dict(uint64=Q, int64view=Q.view(np.int64), strided=np.repeat(Q, 3)[::3], n1=Q[7:8], n0=Q[:0],
-                      pylist=[int(x) for x in Q[Q < np.uint64(1 << 63)]])
+                      pylist=[int(x) for x in Q[Q < np.uint64(1 << 63)]],
+                      bigendian=Q.astype('>u8'), int32pairs_noncontig=np.repeat(Q, 2)[::2])   # same VALUES in a non-native byte order (e.g. a file block stored big-endian)
         for name, inp in inputs.items():
             out = bp.unpack_pids(inp, box=2000.0, ppd=6912, float_dtype=t, **allk)
             cx.calls += 1
